@@ -63,6 +63,8 @@ LenNum(c) == (c.e - c.s) * Sr(c)          \* duration * samplerate = LenNum / td
 AxisIncreasingI(d) == \A i \in 2..Len(d) : d[i - 1] < d[i]
 AxisWithinI(d, step) == Len(d) > 0 => /\ step > 0
                                       /\ \A i \in 1..Len(d) : Abs(d[i] - (i - 1) * step) < step
+\* n coordinates 0, 1, .. n-1 against an advertised step of p/q:  |i - i*p/q| < p/q  <=>  i*|q - p| < p
+AxisWithinRatI(n, p, q) == p > 0 /\ q > 0 /\ \A i \in 0..(n - 1) : i * Abs(q - p) < p
 AxisReqI(d, step) == AxisIncreasingI(d) /\ AxisWithinI(d, step)
 
 \* load_clip: n frames, first coordinate t0 (in samples), rows, coordinates d relative to t0 (in samples)
@@ -156,6 +158,12 @@ StartsAtSource(a, c)   == a.n > 0 => IF Exact(c) THEN LIsZero(a.dev0) ELSE LNear
 (*  r.bs, r.bd  boundary flags of start*sr and (end-start)*sr (see AccInts),*)
 (*  r.src_ok, r.src_n  source array loaded / its length (resamp, spec),    *)
 (*  r.axes    <<time>> or <<time, frequency>> (spec); <<>> when raised.    *)
+(*  r.reobs   re-observations, made after the last call of the case, of    *)
+(*            every array produced earlier in it: axis records with an     *)
+(*            extra field role = "source" (the array loaded by             *)
+(*            load_recording / load_clip that resample / compute_spectrogram*)
+(*            were applied to) or "derived" (the result of the preliminary *)
+(*            resample(source, c.pre) of a derived-twice case).            *)
 (***************************************************************************)
 AccOff(o) == AccInts(OffNum(o.in), o.in.tden, o.out.bs, ExactIn(o.in))
 AccLen(o) == AccInts(LenNum(o.in), o.in.tden, o.out.bd, ExactIn(o.in))
@@ -172,11 +180,13 @@ ClipSameAt(o, off) ==
 
 \* "Drift/..." clauses compare the code with the Impl transcription on exact units; the engine reports them as
 \* MODEL-DRIFT (the spec's Impl must be re-transcribed), never as a violation of the property
+\* an array that satisfied the axis clauses when it was produced must still satisfy them after later library calls
+SourceClauses == {"SourceUntouched/TimeIncreasing", "SourceUntouched/TimeStart", "SourceUntouched/TimeWithinStep"}
 DriftClauses == {"Drift/SpecShape", "Drift/ResampleNum"}
 Clauses == {"Produced",
             "ClipLength", "ClipFrames", "ClipTimes", "ClipSameAsRecording", "ClipConsistent",
             "TimeIncreasing", "TimeStart", "TimeWithinStep",
-            "FreqIncreasing", "FreqStart", "FreqWithinStep"} \cup DriftClauses
+            "FreqIncreasing", "FreqStart", "FreqWithinStep"} \cup SourceClauses \cup DriftClauses
 
 Holds(cl, o) ==
     LET c == o.in  r == o.out
@@ -199,6 +209,14 @@ Holds(cl, o) ==
       [] cl = "FreqIncreasing" -> hasf => AxisIncreasing(r.axes[2])
       [] cl = "FreqWithinStep" -> hasf => AxisWithin(r.axes[2])
       [] cl = "FreqStart"      -> hasf => StartsAtZero(r.axes[2])
+      [] cl = "SourceUntouched/TimeIncreasing" -> \A x \in DOMAIN r.reobs : AxisIncreasing(r.reobs[x])
+      [] cl = "SourceUntouched/TimeWithinStep" -> \A x \in DOMAIN r.reobs : AxisWithin(r.reobs[x])
+      [] cl = "SourceUntouched/TimeStart" ->
+            \A x \in DOMAIN r.reobs :
+               LET a == r.reobs[x] IN
+               IF a.role = "derived" THEN StartsAtSource(a, c)
+               ELSE IF c.src = "rec" THEN StartsAtZero(a)
+               ELSE a.n > 0 => \E off \in AccOff(o) : TimeIs(a.c0, off, Sr(c), ExactCo(c))
       [] cl = "Drift/SpecShape" ->
             (c.kind = "spec" /\ Exact(c) /\ r.src_ok /\ r.src_n >= 1 /\ c.h <= c.w) =>
                IF ImplSpecRaises(c, r.src_n) THEN ~ok
